@@ -510,6 +510,75 @@ def run_giveup(ctx, rnd):
         ctx.count(f'giveup:{"all-fail" if p["worked"] == 0 else "progress"}')
 
 
+FORMATTERS = {
+    # stand-ins for `clang-format -i [-style S] FILE` (not installed): the pass must end whatever the formatter does
+    'idempotent': "import re,sys\np=sys.argv[-1]\nt=open(p).read()\nopen(p,'w').write(re.sub(r'[ \\t]+', ' ', t))\n",
+    'oscillating': "import sys\np=sys.argv[-1]\nt=open(p).read()\nopen(p,'w').write(t[:-2]+'\\n' if t.endswith(' \\n') else t.rstrip('\\n')+' \\n')\n",
+    'growing': "import sys\np=sys.argv[-1]\nt=open(p).read()\nopen(p,'w').write(t+'\\n')\n",
+    'identity': "import sys\n",
+    'failing': "import sys\nsys.exit(3)\n",
+}
+
+
+def run_indent(ctx, rnd):
+    """IndentPass under every verdict sequence and formatters that are idempotent, oscillate between two layouts, grow the file, change
+    nothing or fail: the real (formatter changed?, cursor, verdict) -> next cursor transitions against indent_step inside Coq, and the
+    number of transform calls against the proved bound of C03_indent_terminates (2)."""
+    import itertools
+    import shutil
+    from cvise.passes.abstract import PassResult, ProcessEventNotifier
+    from cvise.passes.indent import IndentPass
+    trans = []
+    for fname, src in sorted(FORMATTERS.items()):
+        tool = os.path.join(ctx.tmp, 'clang-format-' + fname)
+        with open(tool, 'w') as f:
+            f.write('#!/venv/bin/python\n' + src)
+        os.chmod(tool, 0o755)
+        for arg in ('regular', 'final'):
+            for bits in itertools.product((False, True), repeat=3):
+                path = os.path.join(ctx.tmp, 'indent.c')
+                with open(path, 'w') as f:
+                    f.write('int  a;  int\tb;\n')
+                p = IndentPass(arg, {'clang-format': tool})
+                state, calls = p.new(path, None), 0
+                while state is not None and calls < 12:
+                    cand = os.path.join(ctx.tmp, 'indent-cand.c')
+                    shutil.copy(path, cand)
+                    before = open(cand).read()
+                    res, st2 = p.transform(cand, state, ProcessEventNotifier(None))
+                    calls += 1
+                    if res != PassResult.OK:
+                        trans.append((state != 0, state, bits[min(calls - 1, 2)], None, res.name))
+                        break
+                    accepted = bits[min(calls - 1, 2)]
+                    if accepted:
+                        shutil.copy(cand, path)
+                        nxt = p.advance_on_success(cand, st2)
+                    else:
+                        nxt = p.advance(path, state)
+                    trans.append((open(cand).read() != before, state, accepted, nxt, res.name))
+                    state = nxt
+                ctx.evaluations += 1
+                ctx.count(f'indent:{fname}')
+                if calls > 1:
+                    ctx.nontriv(('indent', fname, arg, bits))
+                if calls > 2:
+                    ctx.violation('indent-does-not-terminate', f'indent::{arg} with a formatter that is {fname} and verdicts {list(bits)}: {calls} transform calls '
+                                  f'(still going) - the proved bound is 2', {'mode': 'indent', 'formatter': fname, 'arg': arg, 'bits': list(bits)})
+    cases = []
+    for ch, c, b, nxt, resn in trans:
+        if resn == 'OK':
+            cases.append((f'(true, {c}, {coq.blit(b)})', [1, nxt] if nxt is not None else [-1]))
+        else:
+            # the pass ended (STOP / ERROR): the model ends when the cursor is not 0 or the formatter changed nothing
+            cases.append((f'({coq.blit(ch)}, {c}, {coq.blit(b)})', [-1]))
+    bad = coq.corr_eval('c03indent', ['From CV Require Import Passes.Termination Passes.TermCorr.'], 'indent_case', cases)
+    ctx.corr_cases += len(cases)
+    ctx.corr_disagree += len(bad)
+    for i in bad[:5]:
+        ctx.broke('correspondence', 'indent_step vs IndentPass', f'{cases[i]}')
+
+
 def explore(ctx):
     rnd = random.Random(ctx.seed + 3)
     from cvise.passes.peep import PeepPass
@@ -584,6 +653,7 @@ def explore(ctx):
     run_giveup(ctx, rnd)
     run_stop_passes(ctx, rnd)
     run_unchanged_and_multifile(ctx, rnd)
+    run_indent(ctx, rnd)
     ctx.sample({'passes': len(table), 'texts_per_pass': len(small) + len(rn), 'exhaustive_texts': len(ex)})
 
 
@@ -591,6 +661,9 @@ def replay(ctx, payload):
     r = payload['replay']
     if r.get('mode') == 'stop-pass':
         run_stop_passes(ctx, random.Random(1))
+        return
+    if r.get('mode') == 'indent':
+        run_indent(ctx, random.Random(1))
         return
     if 'scenario' in r and r.get('mode') == 'growth':
         run_growth_guard(ctx, random.Random(1))
@@ -620,7 +693,7 @@ LEVEL_TEXT = ('Machine-checked: any cursor system with a strictly decreasing mea
               'sequence (run_terminates); instantiated for position cursors (balanced, ternary: 2*len-pos), recomputed modification lists '
               '(ints, special: potential), peephole (position, rule) cursors (peep::a, peep::c; every peep::a rule is proved to shrink '
               'its match from the regenerated rule table), counters over shrinking text (blank, comments), the includes counter (exact '
-              'model), binary search ((n+1)(n+2), reduce_total); the main loop of the driver model performs at most size+1 iterations for '
+              'model), the formatter pass (indent: exact model, at most two transform calls for any formatter), binary search ((n+1)(n+2), reduce_total); the main loop of the driver model performs at most size+1 iterations for '
               'any pass list and its result is independent of the fuel; a round without success ends after GIVEUP+N+1 candidates. The step '
               'hypotheses are evaluated inside Coq on every transition observed on the real pass objects across verdict trees; the main '
               'loop model is tied to CVise.reduce by the shim-driven correspondence.')
